@@ -385,6 +385,8 @@ def main_for(prop: str, module, argv=None):
     t0 = time.time()
     ctx = Ctx(prop, tier, seed)
     ev_path = VERIF / "evidence" / f"{prop}.json"
+    if REPO != Path("/repo"):          # a run against a scratch tree (seeded change) must not overwrite the evidence
+        ev_path = VERIF / "replay" / f"evidence-{prop}-alt.json"
     try:
         if replay is not None:
             return _replay(prop, module, json.loads(Path(replay).read_text()))
